@@ -365,11 +365,14 @@ def compare (R : Registry) (m : Mode) (op : CmpOp) (a : Qty) (b : Operand) : Exc
           | .error e, _ => .error e
           | _, .error e => .error e
 
-/-- the value `__hash__` is computed from, up to the (injective) choice of base units:
-    root-unit magnitude and root units -/
+/-- the value `__hash__` is computed from (with the F21 repair), up to the injective rescaling
+    root units → base units: root-unit magnitude and dimensionality -/
 def hashKey (R : Registry) (m : Mode) (a : Qty) : Except Err (Rat × UC) :=
   match R.toRoot m a with
-  | .ok r => .ok (r.mag, r.units)
+  | .ok r =>
+    (match R.getDimensionality r.units with
+      | .ok d => .ok (r.mag, d)
+      | .error e => .error e)
   | .error e => .error e
 
 /-- `__bool__` -/
